@@ -710,6 +710,83 @@ func (s *Sem) Is(v ssa.Value, role string) bool {
 	return res
 }
 
+// fieldOfResultHasRole: base is the struct (or pointer to struct) a module helper handed back; in every return
+// of the helper that yields one, the field was filled with a value of the role. This is how a helper that
+// returns {Username, AuthLevel, ...} in one value carries the authenticated user to its callers.
+func (s *Sem) fieldOfResultHasRole(base ssa.Value, field, role string) bool {
+	base = Unwrap(base)
+	if u, ok := base.(*ssa.UnOp); ok && u.Op == token.MUL {
+		if a, isA := u.X.(*ssa.Alloc); isA {
+			// a local copy of the result
+			var stored ssa.Value
+			n := 0
+			for _, ref := range *a.Referrers() {
+				if st, ok := ref.(*ssa.Store); ok && st.Addr == ssa.Value(a) {
+					stored, n = st.Val, n+1
+				}
+			}
+			if n != 1 {
+				return false
+			}
+			base = Unwrap(stored)
+		} else {
+			base = Unwrap(u.X)
+		}
+	}
+	call, idx := callResult(base)
+	if call == nil {
+		return false
+	}
+	g := StaticCallee(call.Common())
+	if g == nil {
+		return false
+	}
+	g = unwrapSynthetic(g)
+	if g.Blocks == nil || !s.C.inModule(g) {
+		return false
+	}
+	n := 0
+	for _, rc := range s.RetCases(g) {
+		if idx >= len(rc.Results) {
+			return false
+		}
+		rv := Unwrap(rc.Results[idx])
+		if c, ok := rv.(*ssa.Const); ok && isZeroConst(c) {
+			continue
+		}
+		var cell *ssa.Alloc
+		switch x := rv.(type) {
+		case *ssa.Alloc:
+			cell = x
+		case *ssa.UnOp:
+			cell, _ = x.X.(*ssa.Alloc)
+		}
+		if cell == nil {
+			return false
+		}
+		m := 0
+		for _, ref := range *cell.Referrers() {
+			fa, ok := ref.(*ssa.FieldAddr)
+			if !ok || fieldName(fa.X.Type(), fa.Field) != field {
+				continue
+			}
+			for _, r2 := range *fa.Referrers() {
+				if st, ok := r2.(*ssa.Store); ok && st.Addr == ssa.Value(fa) {
+					m++
+					if !s.Is(st.Val, role) {
+						return false
+					}
+				}
+			}
+		}
+		if m == 0 {
+			return false
+		}
+		n++
+	}
+	return n > 0
+}
+
 func (s *Sem) is(v ssa.Value, role string) bool {
 	switch x := v.(type) {
 	case *ssa.Phi:
@@ -751,7 +828,7 @@ func (s *Sem) is(v ssa.Value, role string) bool {
 				if role == RoleAuthLevel && f == "AuthType" && s.Is(base, RoleAuthInfo) {
 					return true
 				}
-				return false
+				return s.fieldOfResultHasRole(base, f, role)
 			}
 			// load of a local variable cell: all stores must have the role
 			if a, ok := x.X.(*ssa.Alloc); ok {
@@ -766,6 +843,7 @@ func (s *Sem) is(v ssa.Value, role string) bool {
 			if role == RoleAuthLevel && f == "AuthType" && s.Is(base, RoleAuthInfo) {
 				return true
 			}
+			return s.fieldOfResultHasRole(base, f, role)
 		}
 	case *ssa.Parameter:
 		return s.paramHasRole(x, role)
